@@ -182,7 +182,11 @@ TokenRawExpected(plain, dst) ==
   ELSE IF t.retry THEN (IF t.ip = Here /\ t.port = 4433 THEN [err |-> FALSE, rscid |-> <<dst>>, odcid |-> t.cid, validated |-> TRUE]
                         ELSE [err |-> TRUE])
   ELSE IF t.ip = Here THEN [err |-> FALSE, rscid |-> <<>>, odcid |-> dst, validated |-> TRUE] ELSE unval
-TokenRawCk == Flag(e.res = TokenRawExpected(e.plain, e.dst), "TokenPlaintextDecodeDiffers")
+\* an issue time of 2^63 seconds or more is beyond the system clock's range: any verdict but a panic
+TokenRawCk ==
+  LET t == DecTokenPlain(e.plain) IN
+  IF t.ok /\ t.secs8[1] >= 128 THEN Flag(e.res.err \in BOOLEAN, "TokenPlaintextDecodeDiffers")
+  ELSE Flag(e.res = TokenRawExpected(e.plain, e.dst), "TokenPlaintextDecodeDiffers")
 PanicCk ==
   IF e.of = "TokenRaw" THEN
     LET t == DecTokenPlain(e.input.plain) IN
